@@ -733,6 +733,25 @@ func (e *Engine) specFunc(y *ECall, env *evalEnv) (Val, bool) {
 			}
 			return e.evalErr("iterkey: iteration " + l.Val + " is not a modelled Walk (or has not run yet)"), true
 		}
+	case "matchcount":
+		// matchcount(store, "IndexField", key): how many stored entries the index field maps to key (the length of
+		// the sequence Indexes.IndexField.MatchExact(key) yields)
+		if l, ok := y.Args[1].(*ELit); ok && len(y.Args) == 3 {
+			m := arg(0)
+			if m.G != nil && m.G.kind == "map" {
+				k := arg(2)
+				ks := "Int"
+				switch {
+				case k.T == bvT || (k.T != nil && isByteSlice(k.T)):
+					ks = "BV"
+				case k.T != nil && kindOf(k.T) == kStr:
+					ks = "Str"
+				}
+				d := e.heap(m.GSt, m.G.name+"_d", e.heapSorts[m.G.name+"_d"])
+				return Val{S: e.matchCount(m.G, l.Val, d, m.S, e.specKey(k, env), ks), T: specInt}, true
+			}
+		}
+		return e.evalErr("matchcount(store, \"IndexField\", key) needs an indexed map store"), true
 	case "itlen":
 		e.declIter("Int")
 		return Val{S: app("itlen", e.iterID(arg(0))), T: specInt}, true
